@@ -70,46 +70,54 @@ func (m *tblModel) opcodeModel() *tblOpModel {
 	rp := c.Pkg("homescript/runtime")
 	// 1. the VM dispatch: a function of package runtime with a parameter whose type is an interface
 	// of package compiler, switching on a zero-argument enum-valued method of that parameter.
+	// (the instruction may be a parameter or a local of the dispatching function; when several
+	// switches qualify, the one with the most clauses is the dispatch)
 	for _, fd := range AllFuncDecls(rp) {
 		f := m.fnByDecl[fd]
 		if f == nil {
 			continue
 		}
-		sig := f.Obj.Type().(*types.Signature)
-		for i := 0; i < sig.Params().Len(); i++ {
-			pv := sig.Params().At(i)
+		var g *tblGuard
+		ast.Inspect(fd.Body, func(n ast.Node) bool {
+			sw, ok := n.(*ast.SwitchStmt)
+			if !ok || sw.Tag == nil {
+				return true
+			}
+			en := m.enumOf(rp.TypesInfo.TypeOf(sw.Tag))
+			if en == nil || en.Type.Obj().Pkg() != cp.Types {
+				return true
+			}
+			if g == nil {
+				g = m.guardFor(f)
+			}
+			call, ok := g.defOf(sw.Tag).(*ast.CallExpr)
+			if !ok || len(call.Args) != 0 {
+				return true
+			}
+			se, ok := ast.Unparen(call.Fun).(*ast.SelectorExpr)
+			if !ok {
+				return true
+			}
+			id, ok := ast.Unparen(se.X).(*ast.Ident)
+			if !ok {
+				return true
+			}
+			pv, ok := rp.TypesInfo.Uses[id].(*types.Var)
+			if !ok {
+				return true
+			}
 			nt, ok := types.Unalias(pv.Type()).(*types.Named)
 			if !ok || nt.Obj().Pkg() != cp.Types {
-				continue
+				return true
 			}
 			if _, isI := nt.Underlying().(*types.Interface); !isI {
-				continue
+				return true
 			}
-			ast.Inspect(fd.Body, func(n ast.Node) bool {
-				sw, ok := n.(*ast.SwitchStmt)
-				if !ok || sw.Tag == nil || o.vmSwitch != nil {
-					return true
-				}
-				call, ok := ast.Unparen(sw.Tag).(*ast.CallExpr)
-				if !ok || len(call.Args) != 0 {
-					return true
-				}
-				se, ok := ast.Unparen(call.Fun).(*ast.SelectorExpr)
-				if !ok {
-					return true
-				}
-				id, ok := ast.Unparen(se.X).(*ast.Ident)
-				if !ok || rp.TypesInfo.Uses[id] != types.Object(pv) {
-					return true
-				}
-				en := m.enumOf(rp.TypesInfo.TypeOf(sw.Tag))
-				if en == nil || en.Type.Obj().Pkg() != cp.Types {
-					return true
-				}
+			if o.vmSwitch == nil || len(sw.Body.List) > len(o.vmSwitch.Body.List) {
 				o.vmFn, o.vmSwitch, o.vmParam, o.iface, o.method, o.enum = f, sw, pv, nt, se.Sel.Name, en
-				return false
-			})
-		}
+			}
+			return true
+		})
 	}
 	if o.vmSwitch == nil {
 		fatalf("anchor unresolved: no function of package runtime dispatches on an enum-valued method of a compiler interface (the VM's instruction switch)")
@@ -159,19 +167,7 @@ func (m *tblModel) opcodeModel() *tblOpModel {
 	if o.compileFn == nil {
 		fatalf("anchor unresolved: compiler.Compiler.Compile")
 	}
-	for i, s := range o.compileFn.Decl.Body.List {
-		es, ok := s.(*ast.ExprStmt)
-		if !ok {
-			continue
-		}
-		if call, ok := es.X.(*ast.CallExpr); ok {
-			if fn := CalleeOf(cp.TypesInfo, call); fn != nil {
-				if f := m.fns[fn.Origin()]; f != nil {
-					o.postFns[f] = i + 1
-				}
-			}
-		}
-	}
+	o.collectPostFns()
 	// 4. build sites
 	o.collectBuilds()
 	// 5. strips
@@ -198,8 +194,20 @@ func (m *tblModel) opcodeModel() *tblOpModel {
 		}
 	}
 	// 7. the VM's cases
-	info := o.vmFn.Pkg.TypesInfo
-	for _, cl := range o.vmSwitch.Body.List {
+	o.collectVMCases(o.vmFn, o.vmSwitch, o.vmParam, 0)
+	tblModelMu.Lock()
+	m.opModel = o
+	tblModelMu.Unlock()
+	return o
+}
+
+// collectVMCases: the clauses of the dispatch; a default clause that hands the
+// instruction on to another function continues the dispatch in that function's
+// switch on the same method (a dispatch split over several functions).
+func (o *tblOpModel) collectVMCases(f *tblFn, sw *ast.SwitchStmt, param types.Object, depth int) {
+	info := f.Pkg.TypesInfo
+	c := o.m.c
+	for _, cl := range sw.Body.List {
 		cc := cl.(*ast.CaseClause)
 		var vals []string
 		for _, e := range cc.List {
@@ -211,30 +219,125 @@ func (m *tblModel) opcodeModel() *tblOpModel {
 		}
 		asserts := map[*types.TypeName]token.Pos{}
 		for _, s := range cc.Body {
+			o.assertsOn(f, param, s, vals, asserts, 0)
+		}
+		for _, v := range vals {
+			if _, dup := o.vmCases[v]; dup {
+				continue
+			}
+			o.vmCases[v] = cc
+			o.vmAsserts[v] = asserts
+		}
+		if cc.List != nil || depth >= 2 {
+			continue
+		}
+		for _, s := range cc.Body {
 			ast.Inspect(s, func(n ast.Node) bool {
-				ta, ok := n.(*ast.TypeAssertExpr)
-				if !ok || ta.Type == nil {
+				call, ok := n.(*ast.CallExpr)
+				if !ok {
 					return true
 				}
-				id, ok := ast.Unparen(ta.X).(*ast.Ident)
-				if !ok || info.Uses[id] != o.vmParam {
+				fn := CalleeOf(info, call)
+				if fn == nil {
 					return true
 				}
-				if nt, ok := types.Unalias(info.TypeOf(ta.Type)).(*types.Named); ok {
-					asserts[nt.Obj()] = ta.Pos()
+				cf := o.m.fns[fn.Origin()]
+				if cf == nil || cf == f {
+					return true
+				}
+				sig := cf.Obj.Type().(*types.Signature)
+				for i, a := range call.Args {
+					id, ok := ast.Unparen(a).(*ast.Ident)
+					if !ok || info.Uses[id] != param || i >= sig.Params().Len() {
+						continue
+					}
+					po := sig.Params().At(i)
+					g2 := o.m.guardFor(cf)
+					var next *ast.SwitchStmt
+					ast.Inspect(cf.Decl.Body, func(n ast.Node) bool {
+						sw2, ok := n.(*ast.SwitchStmt)
+						if !ok || sw2.Tag == nil {
+							return true
+						}
+						if tc, ok := g2.defOf(sw2.Tag).(*ast.CallExpr); ok && len(tc.Args) == 0 {
+							if se, ok := ast.Unparen(tc.Fun).(*ast.SelectorExpr); ok && se.Sel.Name == o.method {
+								if rid, ok := ast.Unparen(se.X).(*ast.Ident); ok && cf.Pkg.TypesInfo.Uses[rid] == types.Object(po) {
+									if next == nil || len(sw2.Body.List) > len(next.Body.List) {
+										next = sw2
+									}
+								}
+							}
+						}
+						return true
+					})
+					if next != nil {
+						o.collectVMCases(cf, next, po, depth+1)
+					}
 				}
 				return true
 			})
 		}
-		for _, v := range vals {
-			o.vmCases[v] = cc
-			o.vmAsserts[v] = asserts
-		}
 	}
-	tblModelMu.Lock()
-	m.opModel = o
-	tblModelMu.Unlock()
-	return o
+}
+
+// assertsOn: the instruction structs asserted on variable obj inside node, also
+// in module functions that node passes obj to (two levels).
+func (o *tblOpModel) assertsOn(f *tblFn, obj types.Object, node ast.Node, vals []string, out map[*types.TypeName]token.Pos, depth int) {
+	info := f.Pkg.TypesInfo
+	ast.Inspect(node, func(n ast.Node) bool {
+		switch x := n.(type) {
+		case *ast.TypeAssertExpr:
+			if x.Type == nil {
+				return true
+			}
+			id, ok := ast.Unparen(x.X).(*ast.Ident)
+			if !ok || info.Uses[id] != obj {
+				return true
+			}
+			if depth > 0 {
+				// inside a helper: an assertion under the helper's own opcode test for other opcodes is not
+				// executed for this clause
+				ep := &tblPath{Root: obj, Parts: "." + o.method + "()"}
+				ep.Key = tblRootKey(obj) + ep.Parts
+				if ft := o.m.guardFor(f).factsAt(x).get(ep); ft != nil {
+					any := false
+					for _, v := range vals {
+						any = any || ft.Allowed[v]
+					}
+					if !any {
+						return true
+					}
+				}
+			}
+			if nt, ok := types.Unalias(info.TypeOf(x.Type)).(*types.Named); ok {
+				if _, seen := out[nt.Obj()]; !seen {
+					out[nt.Obj()] = x.Pos()
+				}
+			}
+		case *ast.CallExpr:
+			if depth >= 2 {
+				return true
+			}
+			fn := CalleeOf(info, x)
+			if fn == nil {
+				return true
+			}
+			cf := o.m.fns[fn.Origin()]
+			if cf == nil || cf == f {
+				return true
+			}
+			sig := fn.Type().(*types.Signature)
+			for i, a := range x.Args {
+				if id, ok := ast.Unparen(a).(*ast.Ident); ok && info.Uses[id] == obj && i < sig.Params().Len() && !(sig.Variadic() && i >= sig.Params().Len()-1) {
+					// the callee's own parameter object (Origin for generics)
+					if po := cf.Obj.Type().(*types.Signature).Params().At(i); po != nil {
+						o.assertsOn(cf, po, cf.Decl.Body, vals, out, depth+1)
+					}
+				}
+			}
+		}
+		return true
+	})
 }
 
 // opcodesAt: the opcode constants expression e can denote at this point.
@@ -264,9 +367,34 @@ func (o *tblOpModel) opcodesAt(f *tblFn, e ast.Expr, at ast.Node) (map[string]bo
 				note := func(rhs ast.Expr) {
 					if tv, ok := info.Types[rhs]; ok && tv.Value != nil {
 						set[tv.Value.ExactString()] = true
-					} else {
-						bad = exprStr(rhs)
+						return
 					}
+					// a lookup in a constant table (a missing map key yields the zero value)
+					if ix, ok := ast.Unparen(rhs).(*ast.IndexExpr); ok {
+						if vals, _ := o.m.tableValues(f, ix.X, 0); vals != nil {
+							for v := range vals {
+								set[v] = true
+							}
+							if _, isMap := types.Unalias(info.TypeOf(ix.X)).Underlying().(*types.Map); isMap {
+								set["0"] = true
+							}
+							return
+						}
+					}
+					// the result of a module function that returns constants only
+					if call, ok := ast.Unparen(rhs).(*ast.CallExpr); ok {
+						if fn := CalleeOf(info, call); fn != nil {
+							if cf := o.m.fns[fn.Origin()]; cf != nil && cf != f && fn.Type().(*types.Signature).Results().Len() == 1 {
+								if ks, why := o.m.constResultsAt(cf, 0, 0); why == "" && len(ks) > 0 {
+									for _, k := range ks {
+										set[k.Val().ExactString()] = true
+									}
+									return
+								}
+							}
+						}
+					}
+					bad = exprStr(rhs)
 				}
 				ast.Inspect(f.Decl.Body, func(n ast.Node) bool {
 					switch x := n.(type) {
@@ -285,6 +413,24 @@ func (o *tblOpModel) opcodesAt(f *tblFn, e ast.Expr, at ast.Node) (map[string]bo
 							}
 							if len(x.Lhs) == len(x.Rhs) && (x.Tok == token.ASSIGN || x.Tok == token.DEFINE) {
 								note(x.Rhs[i])
+							} else if _, isIdx := ast.Unparen(x.Rhs[0]).(*ast.IndexExpr); isIdx && i == 0 && len(x.Rhs) == 1 && len(x.Lhs) == 2 {
+								note(x.Rhs[0]) // v, ok := table[k]
+							} else if call, isCall := ast.Unparen(x.Rhs[0]).(*ast.CallExpr); isCall && len(x.Rhs) == 1 {
+								// a, b := f(…): the constants f returns in that position
+								noted := false
+								if fn := CalleeOf(info, call); fn != nil {
+									if cf := o.m.fns[fn.Origin()]; cf != nil && cf != f {
+										if ks, why := o.m.constResultsAt(cf, i, 0); why == "" && len(ks) > 0 {
+											for _, k := range ks {
+												set[k.Val().ExactString()] = true
+											}
+											noted = true
+										}
+									}
+								}
+								if !noted {
+									bad = "result of " + exprStr(call.Fun)
+								}
 							} else {
 								bad = "multi-value assignment"
 							}
@@ -313,6 +459,31 @@ func (o *tblOpModel) opcodesAt(f *tblFn, e ast.Expr, at ast.Node) (map[string]bo
 				}
 				return nil, "variable " + id.Name + " is assigned the non-constant " + bad
 			}
+		}
+	}
+	// f(…): the constants a module function returns
+	if call, ok := e.(*ast.CallExpr); ok {
+		if fn := CalleeOf(info, call); fn != nil {
+			if cf := o.m.fns[fn.Origin()]; cf != nil && cf != f && fn.Type().(*types.Signature).Results().Len() == 1 {
+				if ks, why := o.m.constResultsAt(cf, 0, 0); why == "" && len(ks) > 0 {
+					set := map[string]bool{}
+					for _, k := range ks {
+						set[k.Val().ExactString()] = true
+					}
+					return set, ""
+				}
+			}
+		}
+	}
+	// table[key]: any value of a constant table
+	if ix, ok := e.(*ast.IndexExpr); ok {
+		if set, why := o.m.tableValues(f, ix.X, 0); set != nil {
+			if _, isMap := types.Unalias(info.TypeOf(ix.X)).Underlying().(*types.Map); isMap {
+				set["0"] = true
+			}
+			return set, ""
+		} else if why != "" {
+			return nil, why
 		}
 	}
 	return nil, "cannot reduce " + exprStr(e) + " to opcode constants"
@@ -355,17 +526,7 @@ func (o *tblOpModel) collectBuilds() {
 				if field == nil {
 					return true
 				}
-				var val ast.Expr
-				st := nt.Underlying().(*types.Struct)
-				for i, el := range cl.Elts {
-					if kv, ok := el.(*ast.KeyValueExpr); ok {
-						if id, ok := kv.Key.(*ast.Ident); ok && id.Name == field.Name() {
-							val = kv.Value
-						}
-					} else if i < st.NumFields() && st.Field(i) == field {
-						val = el
-					}
-				}
+				val := tblFieldValueInLit(info, cl, field, 0)
 				key := fmt.Sprintf("build|%s|%s literal", f.name(), nt.Obj().Name())
 				if val == nil {
 					// zero opcode
@@ -383,58 +544,296 @@ func (o *tblOpModel) collectBuilds() {
 					o.problems = append(o.problems, Obligation{Key: key, Pos: c.Pos(cl.Pos()), Status: Undecided, Detail: why})
 					return true
 				}
+				// a literal written over the visited element of an instruction slice is a rewrite, like a
+				// constructor call in that position
+				if rw, ok := o.asRewrite(f, cl, vals, nt); ok {
+					o.rewrites = append(o.rewrites, rw...)
+					return true
+				}
 				addEmit(vals, tblOpBuild{Struct: nt, Where: c.Pos(cl.Pos()), Fn: f, Call: cl})
 				return true
 			})
 		}
 	}
-	// constructor call sites
-	var fs []*tblFn
-	for f := range ctors {
-		fs = append(fs, f)
+	// constructor call sites (a constructor that forwards its opcode parameter to another constructor
+	// is a constructor too)
+	var work []ctor
+	{
+		var fs []*tblFn
+		for f := range ctors {
+			fs = append(fs, f)
+		}
+		sort.Slice(fs, func(i, j int) bool { return fs[i].name() < fs[j].name() })
+		for _, cf := range fs {
+			work = append(work, ctors[cf]...)
+		}
 	}
-	sort.Slice(fs, func(i, j int) bool { return fs[i].name() < fs[j].name() })
 	seen := map[string]int{}
-	for _, cf := range fs {
-		for _, ct := range ctors[cf] {
-			for _, u := range m.uses[cf.Obj] {
-				if u.Call == nil || u.In == nil {
-					o.problems = append(o.problems, Obligation{Key: tblUniq(seen, "build|"+cf.name()+" used as a value"), Pos: c.Pos(u.Ident.Pos()), Status: Undecided,
-						Detail: "instruction constructor used other than by a direct call"})
-					continue
-				}
-				if ct.param >= len(u.Call.Args) {
-					continue
-				}
-				arg := u.Call.Args[ct.param]
-				vals, why := o.opcodesAt(u.In, arg, u.Call)
-				if vals == nil {
-					o.problems = append(o.problems, Obligation{Key: tblUniq(seen, fmt.Sprintf("build|%s|%s(%s)", u.In.name(), cf.Decl.Name.Name, exprStr(arg))), Pos: c.Pos(u.Call.Pos()), Status: Undecided, Detail: why})
-					continue
-				}
-				b := tblOpBuild{Struct: ct.strct, Where: c.Pos(u.Call.Pos()), Fn: u.In, Call: u.Call}
-				if rw, ok := o.asRewrite(u.In, u.Call, vals, ct.strct); ok {
-					o.rewrites = append(o.rewrites, rw...)
-					continue
-				}
-				addEmit(vals, b)
+	queued := map[string]bool{}
+	for len(work) > 0 {
+		ct := work[0]
+		work = work[1:]
+		cf := ct.fn
+		for _, u := range m.uses[cf.Obj] {
+			if u.Call == nil || u.In == nil {
+				o.problems = append(o.problems, Obligation{Key: tblUniq(seen, "build|"+cf.name()+" used as a value"), Pos: c.Pos(u.Ident.Pos()), Status: Undecided,
+					Detail: "instruction constructor used other than by a direct call"})
+				continue
 			}
+			if ct.param >= len(u.Call.Args) {
+				continue
+			}
+			arg := u.Call.Args[ct.param]
+			if id, ok := ast.Unparen(arg).(*ast.Ident); ok {
+				if idx, isParam := tblParamIndex(u.In, u.In.Pkg.TypesInfo.Uses[id]); isParam && idx >= 0 && o.m.guardFor(u.In).written[u.In.Pkg.TypesInfo.Uses[id]] == 0 {
+					k := fmt.Sprintf("%s|%d|%s", u.In.name(), idx, ct.strct.Obj().Name())
+					if !queued[k] && len(queued) < 64 {
+						queued[k] = true
+						work = append(work, ctor{fn: u.In, param: idx, strct: ct.strct})
+					}
+					continue
+				}
+			}
+			vals, why := o.opcodesAt(u.In, arg, u.Call)
+			if vals == nil {
+				o.problems = append(o.problems, Obligation{Key: tblUniq(seen, fmt.Sprintf("build|%s|%s(%s)", u.In.name(), cf.Decl.Name.Name, exprStr(arg))), Pos: c.Pos(u.Call.Pos()), Status: Undecided, Detail: why})
+				continue
+			}
+			b := tblOpBuild{Struct: ct.strct, Where: c.Pos(u.Call.Pos()), Fn: u.In, Call: u.Call}
+			if rw, ok := o.asRewrite(u.In, u.Call, vals, ct.strct); ok {
+				o.rewrites = append(o.rewrites, rw...)
+				continue
+			}
+			addEmit(vals, b)
 		}
 	}
 }
 
-// asRewrite: the constructed instruction replaces, in place, the element of an
-// instruction slice that is being visited by the enclosing range loop, inside
-// a case of a switch on that element's opcode, in a function that Compile
-// always calls.
-func (o *tblOpModel) asRewrite(f *tblFn, call *ast.CallExpr, vals map[string]bool, to *types.Named) ([]tblOpRewrite, bool) {
+// tblFieldValueInLit: the expression a composite literal gives to struct field
+// `field`, also when the field belongs to a struct embedded (or nested by
+// value) in the literal's type and is set through a nested literal; nil when
+// the literal leaves it zero (or sets it in a way that cannot be followed).
+func tblFieldValueInLit(info *types.Info, cl *ast.CompositeLit, field *types.Var, depth int) ast.Expr {
+	t := types.Unalias(info.TypeOf(cl))
+	if p, ok := t.(*types.Pointer); ok {
+		t = types.Unalias(p.Elem())
+	}
+	st, ok := t.Underlying().(*types.Struct)
+	if !ok || depth > 2 {
+		return nil
+	}
+	for i, el := range cl.Elts {
+		var fv *types.Var
+		val := el
+		if kv, ok := el.(*ast.KeyValueExpr); ok {
+			val = kv.Value
+			if id, ok := kv.Key.(*ast.Ident); ok {
+				for j := 0; j < st.NumFields(); j++ {
+					if st.Field(j).Name() == id.Name {
+						fv = st.Field(j)
+					}
+				}
+			}
+		} else if i < st.NumFields() {
+			fv = st.Field(i)
+		}
+		if fv == nil {
+			continue
+		}
+		if fv == field {
+			return val
+		}
+		if inner, ok := ast.Unparen(val).(*ast.CompositeLit); ok {
+			if v := tblFieldValueInLit(info, inner, field, depth+1); v != nil {
+				return v
+			}
+		}
+	}
+	return nil
+}
+
+// collectPostFns: the functions Compile runs on every compilation, in order:
+// those it calls in a statement that is not under a condition (loops are
+// fine: "for every function of every module"), and, transitively, the
+// functions these call in the same way. The number is the visiting order
+// (statement order, depth first), i.e. the order in which the passes run.
+func (o *tblOpModel) collectPostFns() {
+	cnt := 0
+	var visit func(f *tblFn, depth int)
+	var scan func(f *tblFn, n ast.Node, depth int)
+	scan = func(f *tblFn, n ast.Node, depth int) {
+		if n == nil || tblNilNode(n) {
+			return
+		}
+		info := f.Pkg.TypesInfo
+		ast.Inspect(n, func(n ast.Node) bool {
+			switch x := n.(type) {
+			case *ast.FuncLit, *ast.SwitchStmt, *ast.TypeSwitchStmt, *ast.SelectStmt, *ast.GoStmt:
+				return false
+			case *ast.IfStmt:
+				// the init statement and the condition always run; the branches do not
+				scan(f, x.Init, depth)
+				scan(f, x.Cond, depth)
+				return false
+			case *ast.BinaryExpr:
+				if x.Op == token.LAND || x.Op == token.LOR {
+					scan(f, x.X, depth)
+					return false
+				}
+			case *ast.CallExpr:
+				if fn := CalleeOf(info, x); fn != nil {
+					if cf := o.m.fns[fn.Origin()]; cf != nil && cf.Pkg == o.compileFn.Pkg {
+						visit(cf, depth+1)
+					}
+				}
+			}
+			return true
+		})
+	}
+	visit = func(f *tblFn, depth int) {
+		if _, ok := o.postFns[f]; ok || depth > 3 {
+			return
+		}
+		cnt++
+		o.postFns[f] = cnt
+		for _, s := range f.Decl.Body.List {
+			scan(f, s, depth)
+			// statements below a conditional exit run only on some compilations; passes still count
+			// (a compile error aborts the whole compilation), so do not stop here
+		}
+	}
+	for _, s := range o.compileFn.Decl.Body.List {
+		scan(o.compileFn, s, 0)
+	}
+}
+
+// tblShallow visits the nodes of a statement that are evaluated whenever the
+// statement runs (not the bodies of nested control statements or closures).
+func tblShallow(s ast.Node, fn func(ast.Node)) {
+	ast.Inspect(s, func(n ast.Node) bool {
+		switch n.(type) {
+		case *ast.BlockStmt, *ast.CaseClause, *ast.CommClause, *ast.FuncLit:
+			if n != s {
+				return false
+			}
+		}
+		if n != nil {
+			fn(n)
+		}
+		return true
+	})
+}
+
+// tblLoopVarOf: the enclosing loop statements of n inside f, innermost first,
+// stopping at a closure boundary.
+func tblEnclosingLoops(g *tblGuard, n ast.Node) []ast.Stmt {
+	var out []ast.Stmt
+	for p := g.parents[n]; p != nil; p = g.parents[p] {
+		switch x := p.(type) {
+		case *ast.FuncLit:
+			return out
+		case *ast.RangeStmt:
+			out = append(out, x)
+		case *ast.ForStmt:
+			out = append(out, x)
+		}
+	}
+	return out
+}
+
+// assertedInCallee: the call passes an instruction to a module function; the
+// instruction struct that function (or one it forwards the instruction to)
+// asserts on that parameter.
+func (o *tblOpModel) assertedInCallee(f *tblFn, call *ast.CallExpr, depth int) *types.Named {
+	info := f.Pkg.TypesInfo
+	fn := CalleeOf(info, call)
+	if fn == nil || depth > 1 {
+		return nil
+	}
+	cf := o.m.fns[fn.Origin()]
+	if cf == nil || cf == f {
+		return nil
+	}
+	sig := cf.Obj.Type().(*types.Signature)
+	var from *types.Named
+	for i, a := range call.Args {
+		if i >= sig.Params().Len() || (sig.Variadic() && i >= sig.Params().Len()-1) {
+			break
+		}
+		at, ok := types.Unalias(info.TypeOf(a)).(*types.Named)
+		if !ok || at.Obj() != o.iface.Obj() {
+			continue
+		}
+		po := sig.Params().At(i)
+		cinfo := cf.Pkg.TypesInfo
+		ast.Inspect(cf.Decl.Body, func(n ast.Node) bool {
+			switch x := n.(type) {
+			case *ast.FuncLit:
+				return false
+			case *ast.TypeAssertExpr:
+				if x.Type == nil {
+					return true
+				}
+				if id, ok := ast.Unparen(x.X).(*ast.Ident); ok && cinfo.Uses[id] == types.Object(po) {
+					if nt, ok := types.Unalias(cinfo.TypeOf(x.Type)).(*types.Named); ok && o.structs[nt.Obj()] != nil && from == nil {
+						from = nt
+					}
+				}
+			case *ast.CallExpr:
+				if from == nil {
+					for _, a2 := range x.Args {
+						if id, ok := ast.Unparen(a2).(*ast.Ident); ok && cinfo.Uses[id] == types.Object(po) {
+							if nt := o.assertedInCallee(cf, x, depth+1); nt != nil {
+								from = nt
+							}
+						}
+					}
+				}
+			}
+			return true
+		})
+	}
+	return from
+}
+
+// asRewrite: the built instruction (constructor call or literal) replaces, in
+// place, the element of an instruction slice at the index the enclosing loop
+// is visiting, in a function that Compile always runs. The struct the pass
+// expects to find there is the one it asserts on an instruction on the way to
+// the store (same iteration).
+func (o *tblOpModel) asRewrite(f *tblFn, built ast.Expr, vals map[string]bool, to *types.Named) ([]tblOpRewrite, bool) {
 	info := f.Pkg.TypesInfo
 	g := o.m.guardFor(f)
-	as, ok := g.parents[call].(*ast.AssignStmt)
-	if !ok || len(as.Lhs) != 1 || as.Tok != token.ASSIGN {
+	// the built value may be wrapped in parentheses / a conversion to the interface
+	var cur ast.Node = built
+	for {
+		p := g.parents[cur]
+		if pe, ok := p.(*ast.ParenExpr); ok {
+			cur = pe
+			continue
+		}
+		if ce, ok := p.(*ast.CallExpr); ok && len(ce.Args) == 1 && ce.Args[0] == cur {
+			if tv, has := info.Types[ce.Fun]; has && tv.IsType() {
+				cur = ce
+				continue
+			}
+		}
+		break
+	}
+	as, ok := g.parents[cur].(*ast.AssignStmt)
+	if !ok || as.Tok != token.ASSIGN || len(as.Lhs) != len(as.Rhs) {
 		return nil, false
 	}
-	ix, ok := ast.Unparen(as.Lhs[0]).(*ast.IndexExpr)
+	var lhs ast.Expr
+	for i, r := range as.Rhs {
+		if ast.Node(r) == cur {
+			lhs = as.Lhs[i]
+		}
+	}
+	if lhs == nil {
+		return nil, false
+	}
+	ix, ok := ast.Unparen(lhs).(*ast.IndexExpr)
 	if !ok || !o.isInstrSlice(info.TypeOf(ix.X)) {
 		return nil, false
 	}
@@ -442,41 +841,85 @@ func (o *tblOpModel) asRewrite(f *tblFn, call *ast.CallExpr, vals map[string]boo
 	if !ok {
 		return nil, false
 	}
-	// enclosing range loop whose key is idx and which ranges over an instruction slice
-	var loop *ast.RangeStmt
-	var clause *ast.CaseClause
-	for n := ast.Node(as); n != nil; n = g.parents[n] {
-		if cc, ok := n.(*ast.CaseClause); ok && clause == nil {
-			clause = cc
-		}
-		if rs, ok := n.(*ast.RangeStmt); ok {
-			if kid, ok := rs.Key.(*ast.Ident); ok && info.Defs[kid] != nil && info.Defs[kid] == info.Uses[idxId] && o.isInstrSlice(info.TypeOf(rs.X)) {
-				loop = rs
+	idxObj := info.Uses[idxId]
+	// the loop whose induction variable is the index
+	var loop ast.Stmt
+	for _, l := range tblEnclosingLoops(g, as) {
+		switch x := l.(type) {
+		case *ast.RangeStmt:
+			if kid, ok := x.Key.(*ast.Ident); ok && x.Tok == token.DEFINE && info.Defs[kid] != nil && info.Defs[kid] == idxObj {
+				t := info.TypeOf(x.X)
+				if b, isB := types.Unalias(t).Underlying().(*types.Basic); o.isInstrSlice(t) || (isB && b.Info()&types.IsInteger != 0) {
+					loop = x
+				}
 			}
-			break
-		}
-	}
-	if loop == nil || clause == nil {
-		return nil, false
-	}
-	elem, ok := loop.Value.(*ast.Ident)
-	if !ok {
-		return nil, false
-	}
-	elemObj := info.Defs[elem]
-	// the struct asserted on the visited element in this clause
-	var from *types.Named
-	for _, s := range clause.Body {
-		ast.Inspect(s, func(n ast.Node) bool {
-			if ta, ok := n.(*ast.TypeAssertExpr); ok && ta.Type != nil {
-				if id, ok := ast.Unparen(ta.X).(*ast.Ident); ok && info.Uses[id] == elemObj {
-					if nt, ok := types.Unalias(info.TypeOf(ta.Type)).(*types.Named); ok {
-						from = nt
+		case *ast.ForStmt:
+			if init, ok := x.Init.(*ast.AssignStmt); ok && init.Tok == token.DEFINE {
+				for _, l := range init.Lhs {
+					if id, ok := l.(*ast.Ident); ok && info.Defs[id] != nil && info.Defs[id] == idxObj {
+						loop = x
 					}
 				}
 			}
-			return true
+		}
+		if loop != nil {
+			break
+		}
+	}
+	if loop == nil {
+		return nil, false
+	}
+	// the struct asserted on an instruction on the way to the store: nearest first
+	var from *types.Named
+	look := func(s ast.Node) {
+		tblShallow(s, func(n ast.Node) {
+			ta, ok := n.(*ast.TypeAssertExpr)
+			if !ok || ta.Type == nil {
+				return
+			}
+			xt, ok := types.Unalias(info.TypeOf(ta.X)).(*types.Named)
+			if !ok || xt.Obj() != o.iface.Obj() {
+				return
+			}
+			if nt, ok := types.Unalias(info.TypeOf(ta.Type)).(*types.Named); ok && o.structs[nt.Obj()] != nil {
+				from = nt
+			}
 		})
+	}
+	for ch, pa := ast.Node(as), g.parents[as]; pa != nil && from == nil; ch, pa = pa, g.parents[pa] {
+		var list []ast.Stmt
+		switch x := pa.(type) {
+		case *ast.BlockStmt:
+			list = x.List
+		case *ast.CaseClause:
+			list = x.Body
+		case *ast.IfStmt:
+			if x.Init != nil && ch != ast.Node(x.Init) {
+				look(x.Init)
+			}
+		}
+		at := -1
+		for i, st := range list {
+			if ast.Node(st) == ch {
+				at = i
+			}
+		}
+		if ch == ast.Node(as) {
+			look(as)
+		}
+		for i := at - 1; i >= 0 && from == nil; i-- {
+			look(list[i])
+		}
+		if pa == ast.Node(loop) {
+			break
+		}
+	}
+	if from == nil {
+		// the old instruction is handed to the helper that builds the new one: the struct that helper
+		// asserts on it
+		if call, ok := ast.Unparen(built).(*ast.CallExpr); ok {
+			from = o.assertedInCallee(f, call, 0)
+		}
 	}
 	if from == nil {
 		return nil, false
@@ -487,13 +930,13 @@ func (o *tblOpModel) asRewrite(f *tblFn, call *ast.CallExpr, vals map[string]boo
 			ns = append(ns, o.name(v))
 		}
 		sort.Strings(ns)
-		o.problems = append(o.problems, Obligation{Key: "rewrite|" + f.name() + "|" + strings.Join(ns, ",") + "|not called from Compile", Pos: o.m.c.Pos(call.Pos()), Status: Undecided,
-			Detail: "an in-place instruction rewrite lives in a function that Compile does not call unconditionally"})
+		o.problems = append(o.problems, Obligation{Key: "rewrite|" + f.name() + "|" + strings.Join(ns, ",") + "|not called from Compile", Pos: o.m.c.Pos(built.Pos()), Status: Undecided,
+			Detail: "an in-place instruction rewrite lives in a function that Compile does not run unconditionally"})
 		return nil, false
 	}
 	var out []tblOpRewrite
 	for v := range vals {
-		out = append(out, tblOpRewrite{Op: v, From: from, To: to, Where: o.m.c.Pos(call.Pos()), Fn: f})
+		out = append(out, tblOpRewrite{Op: v, From: from, To: to, Where: o.m.c.Pos(built.Pos()), Fn: f})
 	}
 	sort.Slice(out, func(i, j int) bool { return out[i].Op < out[j].Op })
 	return out, true
@@ -511,88 +954,205 @@ func (o *tblOpModel) isInstrSlice(t types.Type) bool {
 	return ok && nt.Obj() == o.iface.Obj()
 }
 
-// collectStrips: in a function Compile always calls, a range loop over an
-// instruction slice copies the visited element to an output slice only when
-// its opcode differs from K, and the output slice then replaces an
-// instruction-slice field.
+// collectStrips: in a function Compile always runs, an output instruction
+// slice is filled only by `out = append(out, x)` inside loops, where x is an
+// instruction whose opcode is known (from the guards in force at the append)
+// to differ from K, and the output slice then replaces an instruction-slice
+// field (directly, or by being returned to a caller that stores it in one):
+// instructions with opcode K are filtered out of the function body.
 func (o *tblOpModel) collectStrips() {
+	var fs []*tblFn
 	for f := range o.postFns {
+		fs = append(fs, f)
+	}
+	sort.Slice(fs, func(i, j int) bool { return o.postFns[fs[i]] < o.postFns[fs[j]] })
+	for _, f := range fs {
 		info := f.Pkg.TypesInfo
 		g := o.m.guardFor(f)
+		type app struct {
+			call *ast.CallExpr
+			elem types.Object // nil: something other than a plain instruction variable is appended
+		}
+		apps := map[types.Object][]app{}
+		inLoop := func(n ast.Node) bool { return len(tblEnclosingLoops(g, n)) > 0 }
 		ast.Inspect(f.Decl.Body, func(n ast.Node) bool {
-			rs, ok := n.(*ast.RangeStmt)
-			if !ok || !o.isInstrSlice(info.TypeOf(rs.X)) {
+			as, ok := n.(*ast.AssignStmt)
+			if !ok {
 				return true
 			}
-			elem, ok := rs.Value.(*ast.Ident)
-			if !ok || info.Defs[elem] == nil {
-				return true
-			}
-			elemObj := info.Defs[elem]
-			// appends of the element inside the loop body
-			type app struct {
-				call *ast.CallExpr
-				dst  types.Object
-			}
-			var apps []app
-			ast.Inspect(rs.Body, func(n ast.Node) bool {
-				as, ok := n.(*ast.AssignStmt)
-				if !ok || len(as.Lhs) != 1 || len(as.Rhs) != 1 {
-					return true
+			for i, l := range as.Lhs {
+				did, ok := ast.Unparen(l).(*ast.Ident)
+				if !ok || !o.isInstrSlice(info.TypeOf(l)) {
+					continue
 				}
-				call, ok := ast.Unparen(as.Rhs[0]).(*ast.CallExpr)
-				if !ok || len(call.Args) != 2 {
-					return true
+				dst := info.Uses[did]
+				if dst == nil {
+					dst = info.Defs[did]
 				}
-				if id, ok := call.Fun.(*ast.Ident); !ok || id.Name != "append" {
-					return true
+				if dst == nil || len(as.Lhs) != len(as.Rhs) {
+					continue
 				}
-				if _, isB := info.Uses[call.Fun.(*ast.Ident)].(*types.Builtin); !isB {
-					return true
+				call, ok := ast.Unparen(as.Rhs[i]).(*ast.CallExpr)
+				if !ok {
+					continue
 				}
-				if aid, ok := ast.Unparen(call.Args[1]).(*ast.Ident); !ok || info.Uses[aid] != elemObj {
-					return true
+				fid, ok := ast.Unparen(call.Fun).(*ast.Ident)
+				if !ok {
+					continue
 				}
-				if did, ok := ast.Unparen(as.Lhs[0]).(*ast.Ident); ok && o.isInstrSlice(info.TypeOf(as.Lhs[0])) {
-					apps = append(apps, app{call, info.Uses[did]})
+				if b, isB := info.Uses[fid].(*types.Builtin); !isB || b.Name() != "append" || len(call.Args) < 1 {
+					continue
 				}
-				return true
-			})
-			if len(apps) != 1 {
-				return true
-			}
-			// the output slice must replace an instruction-slice field after the loop
-			replaced := false
-			ast.Inspect(f.Decl.Body, func(n ast.Node) bool {
-				as, ok := n.(*ast.AssignStmt)
-				if !ok || as.Pos() < rs.End() || len(as.Lhs) != 1 || len(as.Rhs) != 1 {
-					return true
+				if bid, ok := ast.Unparen(call.Args[0]).(*ast.Ident); !ok || info.Uses[bid] != dst {
+					continue
 				}
-				if rid, ok := ast.Unparen(as.Rhs[0]).(*ast.Ident); ok && info.Uses[rid] == apps[0].dst {
-					if _, isSel := ast.Unparen(as.Lhs[0]).(*ast.SelectorExpr); isSel && o.isInstrSlice(info.TypeOf(as.Lhs[0])) {
-						replaced = true
+				if len(call.Args) == 1 {
+					continue
+				}
+				a := app{call: call}
+				if len(call.Args) == 2 && !call.Ellipsis.IsValid() && inLoop(as) {
+					if aid, ok := ast.Unparen(call.Args[1]).(*ast.Ident); ok {
+						if v, isVar := info.Uses[aid].(*types.Var); isVar {
+							if nt, ok := types.Unalias(v.Type()).(*types.Named); ok && nt.Obj() == o.iface.Obj() {
+								a.elem = v
+							}
+						}
 					}
 				}
-				return true
-			})
-			if !replaced {
-				return true
-			}
-			// what is known about elem.Opcode() where it is appended
-			ep := &tblPath{Root: elemObj, Parts: "." + o.method + "()"}
-			ep.Key = tblRootKey(elemObj) + ep.Parts
-			ft := g.factsAt(apps[0].call).get(ep)
-			if ft == nil {
-				return true
-			}
-			for v := range o.enum.ByVal {
-				if !ft.Allowed[v] {
-					o.stripped[v] = fmt.Sprintf("%s copies an instruction to the function body only when %s", f.name(), ft.Why)
-				}
+				apps[dst] = append(apps[dst], a)
 			}
 			return true
 		})
+		var dsts []types.Object
+		for d := range apps {
+			dsts = append(dsts, d)
+		}
+		sort.Slice(dsts, func(i, j int) bool { return dsts[i].Pos() < dsts[j].Pos() })
+		for _, dst := range dsts {
+			as := apps[dst]
+			filtered := true
+			for _, a := range as {
+				if a.elem == nil {
+					filtered = false
+				}
+			}
+			if !filtered || !o.replacesBody(f, dst, as[0].call.Pos(), 0) {
+				continue
+			}
+			// what is known about x.Opcode() where x is appended: the opcodes excluded at every append
+			var excluded map[string]bool
+			why := ""
+			for _, a := range as {
+				ep := &tblPath{Root: a.elem, Parts: "." + o.method + "()"}
+				ep.Key = tblRootKey(a.elem) + ep.Parts
+				ft := g.factsAt(a.call).get(ep)
+				ex := map[string]bool{}
+				if ft != nil {
+					for v := range o.enum.ByVal {
+						if !ft.Allowed[v] {
+							ex[v] = true
+						}
+					}
+					if why == "" {
+						why = ft.Why
+					}
+				}
+				if excluded == nil {
+					excluded = ex
+				} else {
+					for v := range excluded {
+						if !ex[v] {
+							delete(excluded, v)
+						}
+					}
+				}
+			}
+			for v := range excluded {
+				if _, done := o.stripped[v]; !done {
+					o.stripped[v] = fmt.Sprintf("%s copies an instruction to the function body only when %s", f.name(), why)
+				}
+			}
+		}
 	}
+}
+
+// replacesBody: after position `after`, the local slice dst is stored into an
+// instruction-slice field, or returned to callers that all store that result
+// into one.
+func (o *tblOpModel) replacesBody(f *tblFn, dst types.Object, after token.Pos, depth int) bool {
+	info := f.Pkg.TypesInfo
+	replaced := false
+	retIdx := -1
+	ast.Inspect(f.Decl.Body, func(n ast.Node) bool {
+		switch x := n.(type) {
+		case *ast.FuncLit:
+			return false
+		case *ast.AssignStmt:
+			if x.Pos() < after || len(x.Lhs) != len(x.Rhs) {
+				return true
+			}
+			for i, r := range x.Rhs {
+				if rid, ok := ast.Unparen(r).(*ast.Ident); ok && info.Uses[rid] == dst {
+					if _, isSel := ast.Unparen(x.Lhs[i]).(*ast.SelectorExpr); isSel && o.isInstrSlice(info.TypeOf(x.Lhs[i])) {
+						replaced = true
+					}
+				}
+			}
+		case *ast.ReturnStmt:
+			if x.Pos() < after {
+				return true
+			}
+			for i, r := range x.Results {
+				if rid, ok := ast.Unparen(r).(*ast.Ident); ok && info.Uses[rid] == dst {
+					retIdx = i
+				}
+			}
+		}
+		return true
+	})
+	if replaced {
+		return true
+	}
+	if retIdx < 0 || depth > 1 {
+		return false
+	}
+	if closed, _ := o.m.reach().isClosed(f.Obj); !closed {
+		return false
+	}
+	uses := o.m.uses[f.Obj]
+	if len(uses) == 0 {
+		return false
+	}
+	for _, u := range uses {
+		if u.Call == nil || u.In == nil {
+			return false
+		}
+		g := o.m.guardFor(u.In)
+		as, ok := g.parents[u.Call].(*ast.AssignStmt)
+		if !ok || len(as.Rhs) != 1 || retIdx >= len(as.Lhs) {
+			return false
+		}
+		l := ast.Unparen(as.Lhs[retIdx])
+		if !o.isInstrSlice(u.In.Pkg.TypesInfo.TypeOf(l)) {
+			return false
+		}
+		if _, isSel := l.(*ast.SelectorExpr); isSel {
+			continue
+		}
+		// stored in a local of the caller that then replaces a field
+		id, ok := l.(*ast.Ident)
+		if !ok {
+			return false
+		}
+		lo := u.In.Pkg.TypesInfo.Uses[id]
+		if lo == nil {
+			lo = u.In.Pkg.TypesInfo.Defs[id]
+		}
+		if lo == nil || !o.replacesBody(u.In, lo, as.End(), depth+1) {
+			return false
+		}
+	}
+	return true
 }
 
 func ruleOpcodeShape(c *Ctx) []Obligation {
